@@ -1,0 +1,33 @@
+//go:build verif
+
+// Contracts for the govc verifier (see /verif/DESIGN.md). Comment-only file: with the
+// "verif" build tag off it is not compiled; with it on it contains only the package clause.
+
+package remote
+
+//@ func floor
+//@   props C06
+//@   requires unit > 0 && 0 <= n
+//@   ensures[C06] result <= n && n < result + unit && aligned(result, unit) && result >= 0
+//@ func ceil
+//@   props C06
+//@   requires unit > 0 && 0 <= n && n < 1<<62 && unit < 1<<62
+//@   ensures[C06] n < result && result <= n + unit && aligned(result, unit)
+//@ func positive
+//@   props C06
+//@   ensures[C06] result == max(n, 0)
+//@ func (c region) size
+//@   props C06
+//@   requires -(1<<62) < c.b && c.b < 1<<62 && -(1<<62) < c.e && c.e < 1<<62
+//@   ensures[C06] result == c.e - c.b + 1
+//@ func (b *blob) adjustBufferSize
+//@   props C06
+//@   requires 0 <= offset && 0 <= b.size
+//@   ensures[C06] result == min(len(p), max(b.size - offset, 0))
+//@ func (b *blob) walkChunks
+//@   props C06,C04
+//@   requires b.chunkSize > 0 && 0 <= b.size && b.size < 1<<62 && b.chunkSize < 1<<62
+//@   requires 0 <= allRegion.b && allRegion.e < 1<<62 && walkFn != nil
+//@   iterates walkFn over reg where allRegion.b <= reg.b && reg.b <= allRegion.e && reg.b < b.size && reg.b <= reg.e && aligned(reg.b, b.chunkSize) && reg.e == min(reg.b + b.chunkSize - 1, b.size - 1)
+//@   loop 0 invariant[C06] i >= allRegion.b && aligned(i, b.chunkSize) && aligned(allRegion.b, b.chunkSize)
+//@   loop 0 decreases min(allRegion.e, b.size) - i + b.chunkSize
